@@ -531,7 +531,6 @@ func checkSet(rs *ruleSet, nProbes int, extra []string, dir string, st *stats, w
 	st.add("rule_sets", 1)
 	st.add("rules", int64(len(rs.Rules)))
 	st.add("probe_names", int64(len(names)))
-	dupVals := false
 	for _, r := range rs.Rules {
 		st.add("rules_"+r.Typ, 1)
 		if r.Typ != tRegexp {
@@ -554,13 +553,11 @@ func checkSet(rs *ruleSet, nProbes int, extra []string, dir string, st *stats, w
 				k += r.re.String()
 			}
 			if seen[k] {
-				dupVals = true
 				st.add("duplicate_rules(different values)", 1)
 			}
 			seen[k] = true
 		}
 	}
-	_ = dupVals
 
 	h := fnv.New64a()
 	h.Write([]byte(canonical(rs)))
@@ -799,7 +796,7 @@ func main() {
 		rep.Finish()
 	}
 
-	nSets := rep.Pick(24000, 800000)
+	nSets := rep.Pick(16000, 700000)
 	nProbes := rep.Pick(150, 200)
 	master := rand.New(rand.NewSource(rep.Seed))
 	seeds := make([]int64, nSets)
